@@ -91,3 +91,12 @@ func verifPBState(x *channel.State) (y *channel.State, fromErr, toErr error) {
 	y, toErr = ToState(p)
 	return y, nil, toErr
 }
+
+func verifPBParams(x *channel.Params) (y *channel.Params, fromErr, toErr error) {
+	p, err := FromParams(x)
+	if err != nil {
+		return nil, err, nil
+	}
+	y, toErr = ToParams(p)
+	return y, nil, toErr
+}
